@@ -289,7 +289,13 @@ func (t *Transpiler) transpileStepInvariantExpr(e *parser.StepInvariantExpr) (in
 	// For every evaluation while the value remains same, the timestamp for that
 	// value would change for different eval times. Hence we duplicate the result
 	// with changed timestamps.
-	t.duplicateResult = true
+	// Only an expression that is step invariant as a whole is evaluated once (maxT = minT above);
+	// only then the single result has to be duplicated for every step by the receiver.
+	// A step invariant operand of a step variant expression, e.g. the parenthesized literal
+	// of `(2) * m`, is evaluated at every step together with the rest of the expression.
+	if t.isStepVariantExpr {
+		t.duplicateResult = true
+	}
 	if t.upperSubquery > 0 {
 		t.lowerStepInvariant = true
 	}
